@@ -138,6 +138,7 @@ struct Cfg {
     // with the default: no storage cell is needed for them) and inside it (components 3, 4); the writers own cells on the
     // border of the region, (2|5|6, 2, 2, ..), and write them through the storage view beneath the backup layer
     static constexpr bool writes_through_inner_view = (I == BACKUP_ST);
+    static constexpr int n_writer_cells = (I == CLAMPED || I == BACKUP_ST) ? 3 : 4;  // writer_coord(0 .. n-1) are pairwise distinct cells
     using coord_t = covfie::array::array<coord_scalar, N>;
     static constexpr size_t EXT = 8;
     static std::string name()
@@ -152,10 +153,12 @@ struct Cfg {
         if constexpr (I == DIRECT) {
             return st;
         } else if constexpr (I == CLAMPED) {
+            // box [1, EXT-2]: the readers' coordinates (components 0, 2, 9) need clamping from below and from above, with
+            // different results per thread; the writers own cells (3|4|5, 3, 3, ..), which no clamped reader coordinate reaches
             typename B::configuration_t cc;
             for (size_t k = 0; k < N; ++k) {
-                cc.min[k] = 0;
-                cc.max[k] = EXT - 1;
+                cc.min[k] = 1;
+                cc.max[k] = EXT - 2;
             }
             typename B::owning_data_t o(cc, typename St::owning_data_t(st.backend()));
             return covfie::field<B>(covfie::make_parameter_pack(std::move(o)));
@@ -222,6 +225,11 @@ struct Cfg {
     static coord_t reader_coord(int k)
     {
         coord_t c;
+        if constexpr (I == CLAMPED) {
+            static const int comp[3] = {0, 2, 9};
+            for (size_t a = 0; a < N; ++a) c[a] = static_cast<coord_scalar>(comp[(static_cast<size_t>(k) + a) % 3]);
+            return c;
+        }
         if constexpr (I == BACKUP_ST) {
             // even k: outside the region (components 0 / 1); odd k: inside (components 3 / 4)
             for (size_t a = 0; a < N; ++a) c[a] = static_cast<coord_scalar>((k % 2 ? 3 : 0) + ((k / 2 + a) % 2));
@@ -237,6 +245,11 @@ struct Cfg {
     {
         // readers never reach index 3 (linear reads up to floor(1.75)+1 = 2); writers own the cells (4+k%4, 3, 3, ..)
         coord_t c;
+        if constexpr (I == CLAMPED) {
+            for (size_t a = 0; a < N; ++a) c[a] = static_cast<coord_scalar>(3);
+            c[0] = static_cast<coord_scalar>(3 + k % 3);
+            return c;
+        }
         if constexpr (I == BACKUP_ST) {
             static const int first[4] = {2, 5, 6, 5};
             for (size_t a = 0; a < N; ++a) c[a] = static_cast<coord_scalar>(2);
@@ -762,7 +775,7 @@ static void free_run(Report & R, int T)
                         w.backend().get_backend().at(C::writer_coord(t))[0] = static_cast<float>(rep);  // writer_coord(0..2) are distinct cells
                     }
                 } else if constexpr (writable) {
-                    if (t < 4) v.at(C::writer_coord(t))[0] = static_cast<float>(rep);  // one distinct cell per writer thread
+                    if (t < C::n_writer_cells) v.at(C::writer_coord(t))[0] = static_cast<float>(rep);  // one distinct cell per writer thread
                 }
             }
         });
